@@ -2,6 +2,7 @@
 interpreter (subprocess)."""
 
 import json
+import os
 import subprocess
 import sys
 
@@ -26,7 +27,7 @@ PRE = "import json,numpy as np\nfrom pde import *\n"
 
 
 def run_script(body):
-    p = subprocess.run([sys.executable, "-c", PRE + body], capture_output=True, text=True, cwd="/repo", timeout=900)
+    p = subprocess.run([sys.executable, "-c", PRE + body], capture_output=True, text=True, cwd=os.getcwd(), timeout=900)
     lines = [l for l in p.stdout.strip().splitlines() if l]
     if p.returncode != 0 or not lines:
         return None, p.stderr[-600:]
@@ -47,7 +48,7 @@ def run(payload):
         hist = [rnd.choice(HISTORY) for _ in range(rnd.randint(2, 6))]
         probes = rnd.sample(PROBES, 3)
         body = "\n".join(hist) + "\n" + "\n".join(f"print('@@{n}'); {p}" for n, p in probes)
-        p = subprocess.run([sys.executable, "-c", PRE + body], capture_output=True, text=True, cwd="/repo", timeout=1800)
+        p = subprocess.run([sys.executable, "-c", PRE + body], capture_output=True, text=True, cwd=os.getcwd(), timeout=1800)
         cases += 1
         if p.returncode != 0:
             fails.append({"id": "history_error", "history": hist, "error": p.stderr[-600:]})
